@@ -71,7 +71,7 @@ func c11Expect(n *canon.Node) (*canon.Node, [][]any) {
 
 type c11Step struct {
 	field  universe.Field
-	inList int    // 0 = directly, 1 = [node, iri], 2 = [iri, node], 3 = [node]
+	inList int    // 0 = directly, 1 = [node, iri], 2 = [iri, node], 3 = [node], 4 = &[node, iri] (pointer to a list, single-item positions only)
 	node   string // struct name of the node placed at this step
 	value  bool   // place the node by value (control)
 }
@@ -79,7 +79,7 @@ type c11Step struct {
 func (s c11Step) String() string {
 	f := s.field.Term
 	if s.inList > 0 {
-		f += []string{"", "[0/2]", "[1/2]", "[0/1]"}[s.inList]
+		f += []string{"", "[0/2]", "[1/2]", "[0/1]", "*[0/2]"}[s.inList]
 	}
 	v := "*"
 	if s.value {
@@ -125,7 +125,12 @@ func c11Build(host *universe.Struct, steps []c11Step) any {
 			default:
 				col = ap.ItemCollection{g.IRI(), it.Interface().(ap.Item)}
 			}
-			f.Set(reflect.ValueOf(col))
+			if st.inList == 4 && f.Kind() == reflect.Interface {
+				col = ap.ItemCollection{it.Interface().(ap.Item), g.IRI()}
+				f.Set(reflect.ValueOf(&col))
+			} else {
+				f.Set(reflect.ValueOf(col))
+			}
 		} else {
 			f.Set(it)
 		}
@@ -284,6 +289,9 @@ func c11Run(c *engine.Ctx) {
 				}
 				if nt == "Object" {
 					out = append(out, c11Step{field: f, inList: 3, node: nt})
+					if f.Kind == universe.KItem {
+						out = append(out, c11Step{field: f, inList: 4, node: nt})
+					}
 				}
 			}
 			if f.Kind == universe.KItem {
@@ -414,6 +422,52 @@ func c11Run(c *engine.Ctx) {
 					}
 				})
 			}
+		}
+	}
+	// every list property of the host is a window into ONE backing array, the private lists first: truncating or wiping bto/bcc
+	// must not reach into the neighbouring windows
+	for _, h := range hosts {
+		h := h
+		for _, order := range [][]string{{"Bto", "BCC", "To", "CC", "Audience", "Tag"}, {"BCC", "Tag", "Bto", "To", "CC", "Audience"}, {"To", "Bto", "CC", "BCC", "Tag", "Audience"}} {
+			order := order
+			class := "C11|clean|" + h.Name
+			c.Do(class, func() string {
+				return fmt.Sprintf("*%s whose %v are consecutive two-member windows of one backing array ; Clean()", h.Name, order)
+			}, func(t *engine.T) {
+				g := &universe.Gen{}
+				p := universe.Embedded(h, g, true, true)
+				backing := make(ap.ItemCollection, 0, 2*len(order)+2)
+				for i := 0; i < 2*len(order)+2; i++ {
+					backing = append(backing, g.IRI())
+				}
+				for k, name := range order {
+					p.Elem().FieldByName(name).Set(reflect.ValueOf(backing[2*k : 2*k+2]))
+				}
+				v := p.Interface()
+				before := canon.Of(v, canon.Raw)
+				want, _ := c11Expect(before)
+				t.State(engine.Hash64("c11shared", before.String()), true)
+				v.(ap.HasRecipients).Clean()
+				t.Ops(1)
+				for _, d := range canon.Diff(want, canon.Of(v, canon.Raw)) {
+					term := canon.LastTerm(d.Path)
+					what := "other-property-" + d.Symptom
+					if (term == "bto" || term == "bcc") && d.Symptom == "invented" {
+						what = "private-recipients-left"
+					}
+					t.Fail(fmt.Sprintf("C11|clean|%s|%s|shared-backing-array|%s", h.Name, term, what), "%s", d)
+				}
+				// the two spare slots after the last window belong to nobody, but the members of the other windows must still be there
+				for k, name := range order {
+					if name == "Bto" || name == "BCC" {
+						continue
+					}
+					got := reflect.ValueOf(v).Elem().FieldByName(name).Interface().(ap.ItemCollection)
+					if len(got) != 2 || got[0] == nil || got[1] == nil {
+						t.Fail(fmt.Sprintf("C11|clean|%s|%s|shared-backing-array|members-wiped", h.Name, strings.ToLower(name)), "window %d (%s) is %v after Clean()", k, name, got)
+					}
+				}
+			})
 		}
 	}
 	var vocabNames []string
